@@ -8,6 +8,7 @@ import (
 	"database/sql"
 	"encoding/json"
 	"fmt"
+	ledgerstore "github.com/formancehq/ledger/internal/storage/ledger"
 	"sort"
 	"sync"
 	gotime "time"
@@ -43,7 +44,14 @@ type AcceptRec struct {
 	IDs      []uint64 // the logs of this ledger in the call, in call order (a call can carry one log twice)
 	Refused  []bool   // per position: the exporter refused this item individually (per-item error)
 	Acked    bool     // the call as a whole succeeded (no global error)
+	Prints   []string // per position: fingerprint of the log as the exporter received it (logPrint)
 	Epoch    int
+}
+
+// logPrint: what identifies the content of a log (type, hash, idempotency key, date, payload).
+func logPrint(l ledger.Log) string {
+	data, _ := json.Marshal(l.Data)
+	return fmt.Sprintf("%s|%x|%s|%s|%s", l.Type, l.Hash, l.IdempotencyKey, l.Date.UTC().Format(gotime.RFC3339Nano), data)
 }
 
 // acked: the ids the exporter accepted in this call.
@@ -61,15 +69,16 @@ func (a AcceptRec) acked() []uint64 {
 }
 
 type workerWorld struct {
-	mu       sync.Mutex
-	spec     *WorkerSpec
-	r        *runner
-	manager  *replication.Manager
-	accepts  []AcceptRec
-	resets   []resetRec // completed ResetPipeline calls
-	opens    int
-	vars     map[string]string // $exporter, $pipeline
-	lastSeen int
+	mu          sync.Mutex
+	spec        *WorkerSpec
+	r           *runner
+	manager     *replication.Manager
+	accepts     []AcceptRec
+	resets      []resetRec // completed ResetPipeline calls
+	opens       int
+	vars        map[string]string // $exporter, $pipeline
+	lastSeen    int
+	lastOwnSeen int
 	// a last_log_id older than the reset was persisted after it (finding D4): later symptoms are its consequences
 	staleAfterReset bool
 	managers        []*replication.Manager
@@ -135,6 +144,9 @@ type logFetcher struct {
 	s     *simReplStorage
 	store *SimStore
 	key   string
+	// real-SQL runs: the store the REAL storage driver opened for the pipeline (real factory, real
+	// alone-in-bucket hint); its Logs().Paginate serves the pipeline, as internal/replication/store.go does
+	real *ledgerstore.Store
 }
 
 func (f logFetcher) ListLogs(ctx context.Context, q common.PaginatedQuery[any]) (*paginate.Cursor[ledger.Log], error) {
@@ -153,6 +165,11 @@ func (f logFetcher) ListLogs(ctx context.Context, q common.PaginatedQuery[any]) 
 	if f.s.fenced() {
 		return nil, errSessionDead
 	}
+	if f.real != nil {
+		f.s.ww.r.w.probe("pipeline_logs_through_real_sql")
+		out, err := f.real.Logs().Paginate(sysSQL(ctx), q)
+		return out, err
+	}
 	var out *paginate.Cursor[ledger.Log]
 	err := f.s.quiet(ctx, func(sess *Session) error {
 		var ids []uint64
@@ -169,6 +186,22 @@ func (f logFetcher) ListLogs(ctx context.Context, q common.PaginatedQuery[any]) 
 }
 
 func (s *simReplStorage) OpenLedger(ctx context.Context, name string) (replication.LogFetcher, *ledger.Ledger, error) {
+	if s.fenced() {
+		return nil, nil, errSessionDead
+	}
+	if d := s.inc().realDriver; d != nil {
+		// as internal/replication/store.go:storageAdapter.OpenLedger: the real storage driver opens the ledger
+		// (no yield inside: the Manager holds its mutex here)
+		st, l, err := d.OpenLedger(sysSQL(ctx), name)
+		if err != nil {
+			return nil, nil, err
+		}
+		s.ww.mu.Lock()
+		s.ww.opens++
+		key := fmt.Sprintf("pipeline:%s:%d", name, s.ww.opens)
+		s.ww.mu.Unlock()
+		return logFetcher{s: s, store: NewSimStore(s.ww.r.w, s.inc().bunDB, *l), key: key, real: st}, l, nil
+	}
 	var l *ledger.Ledger
 	err := s.quiet(ctx, func(sess *Session) error {
 		row, _ := sess.get(rowKey{"ledger", "", name}).(*LedgerRow)
@@ -537,6 +570,7 @@ func (d *recDriver) Accept(ctx context.Context, logs ...drivers.LogWithLedger) (
 		for i := range logs {
 			if logs[i].Ledger == l {
 				rec.Refused = append(rec.Refused, i < len(errs) && errs[i] != nil)
+				rec.Prints = append(rec.Prints, logPrint(logs[i].Log))
 			}
 		}
 		d.ww.accepts = append(d.ww.accepts, rec)
